@@ -101,6 +101,9 @@ def illtyped_attempts():
     out.append(("value in the middle of a Seq", lambda: pt.Seq(pt.Int(1), pt.Int(2))))
     out.append(("If with uint64 / bytes arms", lambda: pt.Seq(pt.Pop(pt.If(c(), pt.Int(1), pt.Bytes("a"))), pt.Int(1))))
     out.append(("If/ElseIf/Else with mixed arm types", lambda: pt.Seq(pt.Pop(pt.Btoi(pt.If(c()).Then(pt.Int(1)).ElseIf(c()).Then(pt.Bytes("a")).Else(pt.Bytes("b")))), pt.Int(1))))
+    out.append(("Cond uint64 / anytype / bytes arms", lambda: pt.Seq(pt.Pop(pt.Len(pt.Cond([c(), pt.Int(7)], [c(), pt.App.globalGet(pt.Bytes("k"))], [pt.Int(1), pt.Bytes("a")]))), pt.Int(1))))
+    out.append(("Cond bytes / anytype / uint64 arms", lambda: pt.Seq(pt.Pop(pt.Cond([c(), pt.Bytes("a")], [c(), pt.App.globalGet(pt.Bytes("k"))], [pt.Int(1), pt.Int(7)]) + pt.Int(1)), pt.Int(1))))
+    out.append(("If uint64 / anytype then bytes via ElseIf", lambda: pt.Seq(pt.Pop(pt.Len(pt.If(c()).Then(pt.App.globalGet(pt.Bytes("k"))).ElseIf(c()).Then(pt.Int(1)).Else(pt.Bytes("b")))), pt.Int(1))))
     out.append(("Cond with mixed arm types", lambda: pt.Seq(pt.Pop(pt.Cond([c(), pt.Int(1)], [pt.Int(1), pt.Bytes("a")])), pt.Int(1))))
     out.append(("While with a value body", lambda: pt.Seq(pt.While(c()).Do(pt.Int(1)), pt.Int(1))))
     out.append(("Assert on bytes", lambda: pt.Seq(pt.Assert(pt.Txn.sender()), pt.Int(1))))
@@ -174,6 +177,16 @@ def main():
         descr.append({"big": what})
         nrouter += 1
     chk.notes["router_texts"] = nrouter
+    import handprogs
+    for name, recipe, rs in handprogs.family(tier):
+        for r in rs:
+            if "teal" in r and r["teal"] not in seen:
+                seen.add(r["teal"])
+                t = static.text_record(r["teal"], r["st"]["v"], "app", tag=pipeline.settings_tag(r["st"]),
+                                       registry={"tri": [(1, 1)], "weigh": [(2, 1)], "helper": [(1, 0)], "count": [(1, 1)], "anyf": [(1, 1)]})
+                t["_text"], t["_st"] = r["teal"], r["st"]
+                entries.append({"texts": [t]})
+                descr.append({"big": name})
     import replay as _rp
     refused = accepted = 0
     for what, build in illtyped_attempts():
